@@ -331,6 +331,16 @@ Proof.
   - exfalso. apply Ha. rewrite <- E. apply in_map. exact Hx.
 Qed.
 
+Lemma NoDup_map_in {X Y} (f : X -> Y) : forall l,
+  (forall a b, In a l -> In b l -> f a = f b -> a = b) -> NoDup l -> NoDup (map f l).
+Proof.
+  induction l as [|x l IH]; cbn; intros Hinj Hnd; [constructor|]. inversion Hnd as [|? ? Hx Hl]; subst.
+  constructor.
+  - intros H. apply in_map_iff in H as [y [E Hy]]. apply Hx.
+    rewrite <- (Hinj y x); auto.
+  - apply IH; auto.
+Qed.
+
 Lemma NoDup_app_intro {X} : forall (l r : list X),
   NoDup l -> NoDup r -> (forall x, In x l -> ~ In x r) -> NoDup (l ++ r).
 Proof.
@@ -499,8 +509,8 @@ Section BuildRestore.
   Proof.
     intros x y. unfold G', restore_gen. cbn [edges]. rewrite in_flat_map. split.
     - intros [nd' [Hg H]]. apply in_map_iff in H as [p [E Hp]]. injection E as <- <-.
-      destruct (in_g nd' Hg) as [k [nd [Hm ->]]]. cbn in Hp. apply uniq_In in Hp.
-      apply filter_map_In in Hp as [w [Hw Hu]]. apply preds_In in Hw.
+      destruct (in_g nd' Hg) as [k [nd [Hm ->]]]. cbn in Hp. apply -> uniq_In in Hp.
+      apply (proj1 (filter_map_In _ _ _)) in Hp. destruct Hp as [w [Hw Hu]]. apply (proj1 (preds_In _ _ _)) in Hw.
       exists k, nd, w, p. cbn. auto.
     - intros [k [nd [w [p [Hm [Hw [Hu [-> ->]]]]]]]]. exists (set_parents n0 m es (k, nd)).
       split; [apply node_in_g; exact Hm|]. apply in_map_iff. exists p. split; [reflexivity|].
@@ -526,21 +536,804 @@ Section BuildRestore.
       fold (uids ns). rewrite ns_uids. exact Huids. }
     split; [|split].
     - rewrite keys_G'. apply FinFun.Injective_map_NoDup; [|exact Hg]. intros a b [=]. assumption.
-    - unfold G', restore_gen. cbn [edges]. revert Hg. generalize g as l.
-      induction l as [|nd l IH]; cbn; [constructor|]. intros Hnd. inversion Hnd as [|? ? Hx Hl]; subst.
-      apply NoDup_app_intro.
-      + apply FinFun.Injective_map_NoDup; [intros a b [=]; assumption|].
-        destruct (in_g nd) as [k [nd0 [_ ->]]]; [|cbn; apply uniq_NoDup].
-        (* nd is a member of g only in the original list; handled below *)
-        fail.
-      + apply IH. exact Hl.
-      + intros [x y] H1 H2. apply in_map_iff in H1 as [p [E _]]. injection E as <- <-.
-        apply in_flat_map in H2 as [nd' [Hin H2]]. apply in_map_iff in H2 as [q [E _]].
-        injection E as _ E. apply Hx. rewrite <- E. apply in_map. exact Hin.
+    - unfold G', restore_gen. cbn [edges].
+      assert (Hgen : forall l, incl l g -> NoDup (uids l) ->
+                NoDup (flat_map (fun nd => map (fun p => (KUid p, KUid (ouid nd))) (opar nd)) l)).
+      { induction l as [|nd l IH]; cbn; [constructor|]. intros Hl Hnd. inversion Hnd as [|? ? Hx Hl']; subst.
+        apply NoDup_app_intro.
+        + apply FinFun.Injective_map_NoDup; [intros a b [=]; assumption|].
+          destruct (in_g nd) as [k [nd0 [_ ->]]]; [apply Hl; left; reflexivity|]. cbn. apply uniq_NoDup.
+        + apply IH; [|exact Hl']. intros z Hz. apply Hl. right. exact Hz.
+        + intros [x y] H1 H2. apply in_map_iff in H1 as [p [E _]]. injection E as <- <-.
+          apply in_flat_map in H2 as [nd' [Hin H2]]. apply in_map_iff in H2 as [q [E _]].
+          injection E as _ E. apply Hx. rewrite <- E. apply in_map. exact Hin. }
+      apply Hgen; [apply incl_refl|exact Hg].
     - intros x y H. apply edges_G' in H as [k [nd [w [p [Hm [Hw [Hp [-> ->]]]]]]]].
       rewrite keys_G'. apply uid_of_key_some in Hp as [ndw [Hmw <-]].
-      split; apply in_map; change (ouid ?n) with (ouid (set_parents n0 m es (w, n))) at 1.
+      split; apply in_map; unfold uids.
       + change (ouid ndw) with (ouid (set_parents n0 m es (w, ndw))). apply in_map, node_in_g. exact Hmw.
       + change (ouid nd) with (ouid (set_parents n0 m es (k, nd))). apply in_map, node_in_g. exact Hm.
   Qed.
+  (* the graph built by _adapt satisfies the LinkedGraph invariant *)
+  Lemma g_wf : opt_wf g.
+  Proof.
+    split.
+    - eapply Permutation_NoDup; [apply Permutation_sym, Permutation_map, g_perm|].
+      fold (uids ns). rewrite ns_uids. exact Huids.
+    - intros nd' Hin. destruct (in_g nd' Hin) as [k [nd [Hm ->]]]. cbn [set_parents with_parents opar].
+      split; [apply uniq_NoDup|]. intros p Hp. apply (proj1 (uniq_In _ _)) in Hp.
+      apply (proj1 (filter_map_In _ _ _)) in Hp. destruct Hp as [w [_ Hu]].
+      apply uid_of_key_some in Hu as [ndw [Hmw <-]].
+      change (ouid ndw) with (ouid (set_parents n0 m es (w, ndw))). unfold uids. apply in_map, node_in_g. exact Hmw.
+  Qed.
 End BuildRestore.
+
+Lemma mapi_from_fst {X} : forall (f : nat -> X -> onode) (l : list (key * X)) s,
+  map fst (mapi_from s (fun i ka => (fst ka, f i (snd ka))) l) = map fst l.
+Proof. induction l as [|x l IH]; intros s; cbn; auto. rewrite IH. reflexivity. Qed.
+
+Lemma mapi_from_in {X Y} : forall (f : nat -> X -> Y) (l : list X) s x,
+  In x l -> exists i, s <= i /\ In (f i x) (mapi_from s f l).
+Proof.
+  induction l as [|a l IH]; intros s x; cbn; [tauto|]. intros [<-|H].
+  - exists s. split; [lia|left; reflexivity].
+  - destruct (IH (S s) x H) as [i [Hi Hin]]. exists i. split; [lia|right; exact Hin].
+Qed.
+
+Lemma mapi_from_inv {X Y} : forall (f : nat -> X -> Y) (l : list X) s y,
+  In y (mapi_from s f l) -> exists i x, s <= i /\ nth_error l (i - s) = Some x /\ y = f i x.
+Proof.
+  induction l as [|a l IH]; intros s y; cbn; [tauto|]. intros [<-|H].
+  - exists s, a. rewrite Nat.sub_diag. repeat split; auto.
+  - destruct (IH (S s) y H) as [i [x [Hi [Hn ->]]]]. exists i, x. split; [lia|]. split; [|reflexivity].
+    replace (i - s) with (S (i - S s)) by lia. exact Hn.
+Qed.
+
+Theorem nx_roundtrip_gen {A} (mk : nat -> A -> onode) (nr : onode -> A) (R : A -> A -> Prop)
+        (n0 : nat) (G : nxg A) :
+  nx_wf G ->
+  NoDup (map (fun kn => ouid (snd kn)) (mapped mk G)) ->
+  (forall k a, In (k, a) (nodes G) -> forall i lid ps, R a (nr (with_parents lid ps (mk i a)))) ->
+  nx_iso R (phi_of (mapped mk G)) G (restore_gen nr (adapt_gen n0 mk G)).
+Proof.
+  intros [Hk [He Hends]] Hu HR.
+  assert (Hfst : map fst (mapped mk G) = keys G) by apply mapi_from_fst.
+  assert (Hk' : NoDup (map fst (mapped mk G))) by (rewrite Hfst; exact Hk).
+  unfold adapt_gen. split; [|split; [|split; [|split]]].
+  - rewrite <- Hfst. apply phi_inj; assumption.
+  - rewrite <- Hfst. apply keys_perm; assumption.
+  - intros k a Hin.
+    destruct (mapi_from_in (fun i ka => (fst ka, mk i (snd ka))) (nodes G) 0 (k, a) Hin) as [i [_ Hm]].
+    cbn [fst snd] in Hm. fold (mapped mk G) in Hm.
+    exists (nr (set_parents n0 (mapped mk G) (edges G) (k, mk i a))). split.
+    + rewrite (phi_of_in (mapped mk G) Hk' k (mk i a) Hm).
+      change (KUid (ouid (mk i a))) with (KUid (ouid (set_parents n0 (mapped mk G) (edges G) (k, mk i a)))).
+      unfold restore_gen. cbn [nodes].
+      apply (in_map (fun nd => (KUid (ouid nd), nr nd))). apply node_in_g; assumption.
+    + unfold set_parents. cbn [fst snd]. eapply HR. exact Hin.
+  - rewrite <- Hfst. intros u v. apply edges_iff; assumption.
+  - apply G'_wf; assumption.
+Qed.
+
+(* ==================================================================================== *)
+(* 6. BaseNetworkxAdapter: restore (adapt G) is isomorphic to G                          *)
+(* ==================================================================================== *)
+Lemma oveqb_shift2 : forall o n m, oveqb o (option_map (shift n) (option_map (shift m) o)) = true.
+Proof. intros [v|] n m; cbn; auto using veqb_shift2. Qed.
+
+Lemma base_attrs_roundtrip : forall n0 u0 n1 i d lid ps,
+  name_ok (snd d) = true ->
+  attrs_equiv (snd d) (snd (node_restore n1 (with_parents lid ps (node_adapt n0 u0 i d)))).
+Proof.
+  intros n0 u0 n1 i [aid a] lid ps Hok k. cbn [snd] in *.
+  unfold node_restore, node_name, node_params, with_parents, node_adapt. cbn [oname oparams snd fst].
+  rewrite lookup_shift. unfold name_ok in Hok.
+  destruct (lookup name_key a) as [v|] eqn:El; cbn [option_map].
+  - destruct v as [| | |s| |]; try discriminate Hok. cbn [shift pystr]. rewrite Hok.
+    rewrite lookup_set_key. destruct (String.eqb k name_key) eqn:Ek.
+    + apply String.eqb_eq in Ek. subst k. rewrite El. cbn. apply String.eqb_refl.
+    + rewrite lookup_shift, lookup_remove_neq, lookup_shift.
+      * apply oveqb_shift2.
+      * intros ->. rewrite String.eqb_refl in Ek. discriminate.
+  - cbn [str_nonempty]. rewrite remove_absent by (rewrite lookup_shift, El; reflexivity).
+    rewrite !lookup_shift. apply oveqb_shift2.
+Qed.
+
+Lemma base_mapped_uids : forall n0 u0 (l : list (key * nxattrs)) s,
+  map (fun kn : key * onode => ouid (snd kn))
+      (mapi_from s (fun i ka => (fst ka, node_adapt n0 u0 i (snd ka))) l) = seq (u0 + s) (List.length l).
+Proof.
+  induction l as [|x l IH]; intros s; cbn [mapi_from map List.length seq]; auto.
+  f_equal. rewrite IH. f_equal. lia.
+Qed.
+
+Definition nx_name_guard (G : nxg nxattrs) : Prop :=
+  forall k d, In (k, d) (nodes G) -> name_ok (snd d) = true.
+
+Definition nx_attrs_equal (a b : nxattrs) : Prop := attrs_equiv (snd a) (snd b).
+
+(* the isomorphism: key |-> uid of the node created for it *)
+Definition key_to_uid (n0 u0 : nat) (G : nxg nxattrs) : key -> key := phi_of (mapped (node_adapt n0 u0) G).
+
+Theorem nx_roundtrip : forall n0 u0 n1 (G : nxg nxattrs),
+  nx_wf G -> nx_name_guard G ->
+  nx_iso nx_attrs_equal (key_to_uid n0 u0 G) G (nx_restore n1 (nx_adapt n0 u0 G)).
+Proof.
+  intros n0 u0 n1 G Hwf Hg. unfold nx_restore, nx_adapt, key_to_uid.
+  apply nx_roundtrip_gen; [exact Hwf| |].
+  - unfold mapped. rewrite base_mapped_uids. apply seq_NoDup.
+  - intros k d Hin i lid ps. apply base_attrs_roundtrip. eapply Hg. exact Hin.
+Qed.
+
+Lemma mapi_from_nth {X Y} : forall (f : nat -> X -> Y) (l : list X) s j x,
+  nth_error l j = Some x -> In (f (s + j) x) (mapi_from s f l).
+Proof.
+  induction l as [|a l IH]; intros s [|j] x H; cbn in *; try discriminate.
+  - injection H as ->. left. rewrite Nat.add_0_r. reflexivity.
+  - right. replace (s + S j) with (S s + j) by lia. apply IH. exact H.
+Qed.
+
+(* key_to_uid really is key |-> KUid (u0 + position of the key) *)
+Lemma key_to_uid_spec : forall n0 u0 (G : nxg nxattrs) i k d,
+  NoDup (keys G) -> nth_error (nodes G) i = Some (k, d) -> key_to_uid n0 u0 G k = KUid (u0 + i).
+Proof.
+  intros n0 u0 G i k d Hk Hn. unfold key_to_uid.
+  pose proof (mapi_from_nth (fun i ka => (fst ka, node_adapt n0 u0 i (snd ka))) (nodes G) 0 i (k, d) Hn) as Hm.
+  cbn [fst snd Nat.add] in Hm.
+  assert (Hk' : NoDup (map fst (mapped (node_adapt n0 u0) G))).
+  { unfold mapped. rewrite mapi_from_fst. exact Hk. }
+  unfold mapped in *. rewrite (phi_of_in _ Hk' _ _ Hm). reflexivity.
+Qed.
+
+(* ==================================================================================== *)
+(* 7. internal -> NetworkX -> internal, generic                                          *)
+(* ==================================================================================== *)
+(* f renames the uids of g onto those of g'; the image of every node has the f-image of its
+   parent list (same order) and S-related content *)
+Definition opt_iso (S : onode -> onode -> Prop) (f : nat -> nat) (g g' : optg) : Prop :=
+  (forall u1 u2, In u1 (uids g) -> In u2 (uids g) -> f u1 = f u2 -> u1 = u2) /\
+  Permutation (map f (uids g)) (uids g') /\
+  (forall nd, In nd g -> exists nd', In nd' g' /\ ouid nd' = f (ouid nd) /\
+                                     opar nd' = map f (opar nd) /\ S nd nd') /\
+  opt_wf g'.
+
+Definition blk (nd : onode) : list (key * key) := map (fun p => (KUid p, KUid (ouid nd))) (opar nd).
+
+Lemma preds_app : forall l r k, preds (l ++ r) k = preds l k ++ preds r k.
+Proof. intros. unfold preds. rewrite filter_app, map_app. reflexivity. Qed.
+
+Lemma preds_blk : forall nd u, preds (blk nd) (KUid u) = if Nat.eqb (ouid nd) u then map KUid (opar nd) else [].
+Proof.
+  intros nd u. unfold preds, blk. induction (opar nd) as [|p l IH]; cbn.
+  - destruct (Nat.eqb (ouid nd) u); reflexivity.
+  - destruct (Nat.eqb (ouid nd) u) eqn:E; cbn; rewrite IH; reflexivity.
+Qed.
+
+Lemma preds_flat_absent : forall l u, ~ In u (uids l) -> preds (flat_map blk l) (KUid u) = [].
+Proof.
+  induction l as [|x l IH]; intros u Hu; cbn [flat_map]; auto. rewrite preds_app, preds_blk.
+  destruct (Nat.eqb (ouid x) u) eqn:E.
+  - apply Nat.eqb_eq in E. exfalso. apply Hu. left. exact E.
+  - cbn. apply IH. intros H. apply Hu. right. exact H.
+Qed.
+
+Lemma preds_flat : forall l nd, NoDup (uids l) -> In nd l ->
+  preds (flat_map blk l) (KUid (ouid nd)) = map KUid (opar nd).
+Proof.
+  induction l as [|x l IH]; intros nd Hnd Hin; cbn [flat_map]; [destruct Hin|]. inversion Hnd as [|? ? Hx Hl]; subst.
+  rewrite preds_app, preds_blk. destruct Hin as [<-|Hin].
+  - rewrite Nat.eqb_refl, preds_flat_absent, app_nil_r; auto.
+  - destruct (Nat.eqb (ouid x) (ouid nd)) eqn:E.
+    + apply Nat.eqb_eq in E. exfalso. apply Hx. rewrite E. apply in_map. exact Hin.
+    + cbn. apply IH; assumption.
+Qed.
+
+Lemma filter_map_map_some {X Y Z} (f : Y -> option Z) (h : X -> Y) (k : X -> Z) : forall l,
+  (forall x, In x l -> f (h x) = Some (k x)) -> filter_map f (map h l) = map k l.
+Proof.
+  induction l as [|a l IH]; intros H; cbn; auto. rewrite (H a) by (left; reflexivity).
+  f_equal. apply IH. intros x Hx. apply H. right. exact Hx.
+Qed.
+
+Section RestoreBuild.
+  Context {A : Type}.
+  Variable n0 : nat.
+  Variable mk : nat -> A -> onode.
+  Variable nr : onode -> A.
+  Variable g : optg.
+  Hypothesis Hwf : opt_wf g.
+  Let G := restore_gen nr g.
+  Let m := mapped mk G.
+  Hypothesis Huids : NoDup (map (fun kn : key * onode => ouid (snd kn)) m).
+
+  Definition psi_of (u : nat) : nat :=
+    match uid_of_key m (KUid u) with Some u' => u' | None => u end.
+
+  Lemma m_fst : map fst m = map KUid (uids g).
+  Proof.
+    unfold m, mapped. rewrite mapi_from_fst. unfold G, restore_gen, uids. cbn. rewrite !map_map. reflexivity.
+  Qed.
+
+  Lemma m_keys : NoDup (map fst m).
+  Proof.
+    rewrite m_fst. apply FinFun.Injective_map_NoDup; [intros a b [=]; assumption|apply Hwf].
+  Qed.
+
+  Lemma m_entry : forall nd, In nd g -> exists i, In (KUid (ouid nd), mk i (nr nd)) m.
+  Proof.
+    intros nd Hin.
+    assert (H : In (KUid (ouid nd), nr nd) (nodes G)).
+    { unfold G, restore_gen. cbn. apply (in_map (fun nd => (KUid (ouid nd), nr nd))). exact Hin. }
+    destruct (mapi_from_in (fun i ka => (fst ka, mk i (snd ka))) (nodes G) 0 _ H) as [i [_ Hm]].
+    exists i. exact Hm.
+  Qed.
+
+  Lemma psi_of_in : forall u x, In (KUid u, x) m -> psi_of u = ouid x.
+  Proof. intros u x H. unfold psi_of. rewrite (uid_of_key_in m m_keys _ _ H). reflexivity. Qed.
+
+  Lemma uid_entry : forall u, In u (uids g) -> exists x, In (KUid u, x) m.
+  Proof.
+    intros u Hu. apply in_map_iff in Hu as [nd [<- Hin]]. destruct (m_entry nd Hin) as [i H]. eauto.
+  Qed.
+
+  Lemma psi_inj : forall u1 u2, In u1 (uids g) -> In u2 (uids g) -> psi_of u1 = psi_of u2 -> u1 = u2.
+  Proof.
+    intros u1 u2 H1 H2 E. destruct (uid_entry u1 H1) as [x1 E1], (uid_entry u2 H2) as [x2 E2].
+    rewrite (psi_of_in _ _ E1), (psi_of_in _ _ E2) in E.
+    destruct (entry_inj m Huids _ _ _ _ E1 E2 E) as [[= ->] _]. reflexivity.
+  Qed.
+
+  Lemma new_parents : forall nd x, In nd g ->
+    opar (set_parents n0 m (edges G) (KUid (ouid nd), x)) = map psi_of (opar nd).
+  Proof.
+    intros nd x Hin. destruct Hwf as [Hnd Hcl]. destruct (Hcl nd Hin) as [Hpn Hpi].
+    cbn [set_parents with_parents opar fst].
+    unfold G, restore_gen. cbn [edges]. fold blk. change (fun nd0 : onode => blk nd0) with blk.
+    rewrite (preds_flat g nd Hnd Hin).
+    rewrite (filter_map_map_some (uid_of_key m) KUid psi_of).
+    - apply uniq_id. apply NoDup_map_in; [|exact Hpn].
+      intros a b Ha Hb. apply psi_inj; apply Hpi; assumption.
+    - intros p Hp. destruct (uid_entry p (Hpi p Hp)) as [y Hy].
+      rewrite (uid_of_key_in m m_keys _ _ Hy), (psi_of_in _ _ Hy). reflexivity.
+  Qed.
+
+  Lemma new_uids : map (fun kn : key * onode => ouid (snd kn)) m = map psi_of (uids g).
+  Proof.
+    pose (F := fun k => match uid_of_key m k with Some u => u | None => 0 end).
+    transitivity (map F (map fst m)).
+    - rewrite map_map. apply map_ext_in. intros [k nd] H. unfold F. cbn [fst snd].
+      rewrite (uid_of_key_in m m_keys _ _ H). reflexivity.
+    - rewrite m_fst, map_map. apply map_ext_in. intros u Hu. destruct (uid_entry u Hu) as [x Hx].
+      unfold F. rewrite (uid_of_key_in m m_keys _ _ Hx), (psi_of_in _ _ Hx). reflexivity.
+  Qed.
+
+  Variable S : onode -> onode -> Prop.
+  Hypothesis HS : forall nd, In nd g -> forall i lid ps, S nd (with_parents lid ps (mk i (nr nd))).
+
+  Theorem opt_roundtrip_gen : opt_iso S psi_of g (adapt_gen n0 mk G).
+  Proof.
+    unfold adapt_gen. fold m. split; [exact psi_inj|]. split; [|split].
+    - eapply Permutation_trans; [|apply Permutation_sym, Permutation_map, (g_perm n0 m (edges G) Huids)].
+      fold (uids (map (set_parents n0 m (edges G)) m)). rewrite ns_uids, new_uids. apply Permutation_refl.
+    - intros nd Hin. destruct (m_entry nd Hin) as [i Hm].
+      exists (set_parents n0 m (edges G) (KUid (ouid nd), mk i (nr nd))). split; [|split; [|split]].
+      + apply (node_in_g n0 m (edges G) Huids). exact Hm.
+      + cbn. symmetry. apply psi_of_in. exact Hm.
+      + apply new_parents. exact Hin.
+      + unfold set_parents. cbn [fst snd]. apply HS. exact Hin.
+    - apply g_wf. exact Huids.
+  Qed.
+End RestoreBuild.
+
+(* ==================================================================================== *)
+(* 8. BaseNetworkxAdapter: adapt (restore g) preserves structure, names, parameters      *)
+(* ==================================================================================== *)
+Lemma set_key_absent : forall k v a, lookup k a = None -> set_key k v a = a ++ [(k, v)].
+Proof.
+  induction a as [|[k2 w] a IH]; cbn; auto. destruct (String.eqb k k2); [discriminate|].
+  intros H. rewrite IH; auto.
+Qed.
+
+Lemma remove_key_last : forall k v a, lookup k a = None -> remove_key k (a ++ [(k, v)]) = a.
+Proof.
+  induction a as [|[k2 w] a IH]; cbn.
+  - rewrite String.eqb_refl. reflexivity.
+  - destruct (String.eqb k k2); [discriminate|]. intros H. rewrite IH; auto.
+Qed.
+
+Lemma shift_attrs_app : forall n a b, shift_attrs n (a ++ b) = shift_attrs n a ++ shift_attrs n b.
+Proof. intros. unfold shift_attrs. apply map_app. Qed.
+
+Lemma base_node_roundtrip : forall n0 u0 n1 i lid ps nd,
+  lookup name_key (node_params nd) = None ->
+  let nd' := with_parents lid ps (node_adapt n0 u0 i (node_restore n1 nd)) in
+  node_name nd' = node_name nd /\
+  node_params nd' = shift_attrs n0 (shift_attrs n1 (node_params nd)).
+Proof.
+  intros n0 u0 n1 i lid ps nd Hno. cbn zeta.
+  assert (Hp : lookup name_key (shift_attrs n1 (node_params nd)) = None) by (rewrite lookup_shift, Hno; reflexivity).
+  assert (Hq : lookup name_key (shift_attrs n0 (shift_attrs n1 (node_params nd))) = None)
+    by (rewrite lookup_shift, Hp; reflexivity).
+  assert (Hn : forall d, node_name (with_parents lid ps (node_adapt n0 u0 i d)) =
+                         match lookup name_key (shift_attrs n0 (snd d)) with
+                         | Some PNone | None => EmptyString
+                         | Some v => pystr v end).
+  { intros d. unfold node_name, with_parents, node_adapt. cbn [oname].
+    destruct (lookup name_key (shift_attrs n0 (snd d))) as [[]|]; reflexivity. }
+  assert (Hpar : forall d, node_params (with_parents lid ps (node_adapt n0 u0 i d)) =
+                           remove_key name_key (shift_attrs n0 (snd d))) by reflexivity.
+  rewrite Hn, Hpar. unfold node_restore. cbn [snd].
+  destruct (str_nonempty (node_name nd)) eqn:Ene.
+  - rewrite (set_key_absent _ _ _ Hp), shift_attrs_app.
+    change (shift_attrs n0 [(name_key, PStr (node_name nd))]) with [(name_key, PStr (node_name nd))].
+    rewrite (remove_key_last _ _ _ Hq). split; [|reflexivity].
+    assert (Hl : forall a v, lookup name_key a = None -> lookup name_key (a ++ [(name_key, v)]) = Some v).
+    { induction a as [|[k2 w] a IH]; cbn [app lookup]; intros v.
+      - intros _. rewrite String.eqb_refl. reflexivity.
+      - destruct (String.eqb name_key k2); [discriminate|]. apply IH. }
+    rewrite (Hl _ _ Hq). reflexivity.
+  - rewrite Hq. rewrite (remove_absent _ _ Hq).
+    split; [|reflexivity]. destruct (node_name nd); [reflexivity|discriminate].
+Qed.
+
+(* same name (as node.name reports it) and equal parameters (as node.parameters reports them) *)
+Definition same_name_params (nd nd' : onode) : Prop :=
+  node_name nd' = node_name nd /\ attrs_equiv (node_params nd) (node_params nd').
+
+Definition opt_params_guard (g : optg) : Prop :=
+  forall nd, In nd g -> lookup name_key (node_params nd) = None.
+
+Definition uid_renaming (n0 u0 n1 : nat) (g : optg) : nat -> nat :=
+  psi_of (node_adapt n0 u0) (node_restore n1) g.
+
+Theorem opt_roundtrip : forall n0 u0 n1 g,
+  opt_wf g -> opt_params_guard g ->
+  opt_iso same_name_params (uid_renaming n0 u0 n1 g) g (nx_adapt n0 u0 (nx_restore n1 g)).
+Proof.
+  intros n0 u0 n1 g Hwf Hg. unfold nx_adapt, nx_restore, uid_renaming.
+  apply opt_roundtrip_gen; [exact Hwf| |].
+  - unfold mapped. rewrite base_mapped_uids. apply seq_NoDup.
+  - intros nd Hin i lid ps. destruct (base_node_roundtrip n0 u0 n1 i lid ps nd (Hg nd Hin)) as [H1 H2].
+    split; [exact H1|]. rewrite H2. intros k. rewrite !lookup_shift. apply oveqb_shift2.
+Qed.
+
+(* ==================================================================================== *)
+(* 9. DumbNetworkxAdapter (node objects travel inside the attribute dict)                *)
+(* ==================================================================================== *)
+Lemma dumb_mapped_uids {X} : forall (f : X -> onode) (l : list (key * X)) s,
+  map (fun kn : key * onode => ouid (snd kn)) (mapi_from s (fun _ ka => (fst ka, f (snd ka))) l)
+  = map (fun ka => ouid (f (snd ka))) l.
+Proof. induction l as [|x l IH]; intros s; cbn; auto. rewrite IH. reflexivity. Qed.
+
+(* the same node object, possibly with a re-assigned parent list *)
+Definition same_node_object (nd nd' : onode) : Prop := exists lid ps, nd' = with_parents lid ps nd.
+
+Theorem dumb_nx_roundtrip : forall n0 (G : nxg onode),
+  nx_wf G -> NoDup (map (fun ka => ouid (snd ka)) (nodes G)) ->
+  nx_iso same_node_object (phi_of (mapped (fun _ nd => nd) G)) G (dumb_restore (dumb_adapt n0 G)).
+Proof.
+  intros n0 G Hwf Hu. unfold dumb_restore, dumb_adapt. apply nx_roundtrip_gen; [exact Hwf| |].
+  - unfold mapped. rewrite (dumb_mapped_uids (fun nd => nd)). exact Hu.
+  - intros k a _ i lid ps. exists lid, ps. reflexivity.
+Qed.
+
+Theorem dumb_opt_roundtrip : forall n0 g,
+  opt_wf g ->
+  opt_iso same_node_object (psi_of (fun _ nd => nd) (fun nd => nd) g) g (dumb_adapt n0 (dumb_restore g)).
+Proof.
+  intros n0 g Hwf. unfold dumb_adapt, dumb_restore. apply opt_roundtrip_gen; [exact Hwf| |].
+  - unfold mapped. rewrite (dumb_mapped_uids (fun nd => nd)). unfold restore_gen. cbn [nodes].
+    rewrite map_map. cbn [snd]. apply Hwf.
+  - intros nd _ i lid ps. exists lid, ps. reflexivity.
+Qed.
+
+(* ... and the uids do not change at all *)
+Lemma dumb_psi_id : forall g u, opt_wf g -> In u (uids g) ->
+  psi_of (fun _ nd => nd) (fun nd => nd) g u = u.
+Proof.
+  intros g u Hwf Hu. apply in_map_iff in Hu as [nd [<- Hin]].
+  assert (Hu' : NoDup (map (fun kn : key * onode => ouid (snd kn))
+                           (mapped (fun _ nd => nd) (restore_gen (fun nd => nd) g)))).
+  { unfold mapped. rewrite (dumb_mapped_uids (fun nd => nd)). unfold restore_gen. cbn [nodes].
+    rewrite map_map. cbn [snd]. apply Hwf. }
+  destruct (m_entry (fun _ nd => nd) (fun nd => nd) g nd Hin) as [i Hm].
+  rewrite (psi_of_in (fun _ nd => nd) (fun nd => nd) g Hwf _ _ Hm). reflexivity.
+Qed.
+
+(* ==================================================================================== *)
+(* 10. the copying adapters allocate everything they return                              *)
+(* ==================================================================================== *)
+Definition fresh (n0 : nat) (ids : list nat) : Prop := Forall (fun i => n0 <= i) ids.
+
+Lemma fresh_app : forall n l r, fresh n l -> fresh n r -> fresh n (l ++ r).
+Proof. intros. apply Forall_app. auto. Qed.
+
+Lemma fresh_incl : forall n l r, (forall i, In i l -> In i r) -> fresh n r -> fresh n l.
+Proof. intros n l r H Hr. apply Forall_forall. intros i Hi. eapply Forall_forall in Hr; eauto. Qed.
+
+Lemma fresh_flat_map {X} : forall n (f : X -> list nat) l, (forall x, In x l -> fresh n (f x)) -> fresh n (flat_map f l).
+Proof.
+  induction l as [|a l IH]; cbn; intros H; [constructor|]. apply fresh_app; [apply H; auto|apply IH; auto].
+Qed.
+
+Lemma node_adapt_fresh : forall n0 u0 i d lid ps, n0 <= lid ->
+  fresh n0 (node_ids (with_parents lid ps (node_adapt n0 u0 i d))).
+Proof.
+  intros n0 u0 i [aid a] lid ps Hlid. unfold node_ids, with_parents, node_adapt. cbn [oid olid oname oparams fst snd].
+  constructor; [lia|]. constructor; [exact Hlid|]. apply fresh_app.
+  - destruct (lookup name_key (shift_attrs n0 a)) as [v|] eqn:E; [|constructor].
+    apply Forall_forall. intros j Hj.
+    pose proof (attrs_ids_shift a n0) as H. eapply Forall_forall in H; [exact H|].
+    eapply lookup_in_ids; eassumption.
+  - constructor; [lia|]. eapply fresh_incl; [apply attrs_ids_remove|apply attrs_ids_shift].
+Qed.
+
+Theorem nx_adapt_fresh : forall n0 u0 G, fresh n0 (opt_ids (nx_adapt n0 u0 G)).
+Proof.
+  intros n0 u0 G. unfold opt_ids. apply fresh_flat_map. intros nd Hin.
+  unfold nx_adapt, adapt_gen, build_graph in Hin. apply mk_graph_in in Hin.
+  apply in_map_iff in Hin as [[k x] [<- Hm]]. unfold mapped in Hm.
+  apply mapi_from_inv in Hm as [i [[k' d] [_ [_ E]]]]. cbn [fst snd] in E. injection E as -> ->.
+  unfold set_parents. cbn [fst snd]. apply node_adapt_fresh. lia.
+Qed.
+
+Theorem nx_restore_fresh : forall n1 g, fresh n1 (nx_ids (nx_restore n1 g)).
+Proof.
+  intros n1 g. unfold nx_ids, nx_restore, restore_gen. cbn [nodes]. apply fresh_flat_map.
+  intros [k d] Hin. apply in_map_iff in Hin as [nd [E _]]. injection E as _ <-.
+  unfold node_restore. cbn [fst snd]. constructor; [lia|].
+  destruct (str_nonempty (node_name nd)).
+  - eapply fresh_incl; [apply attrs_ids_set_str|apply attrs_ids_shift].
+  - apply attrs_ids_shift.
+Qed.
+
+Lemma copy_node_fresh : forall n0 c nd, fresh n0 (node_ids (copy_node n0 c nd)).
+Proof.
+  intros n0 c nd. unfold node_ids, copy_node. cbn [oid olid oname oparams].
+  constructor; [lia|]. constructor; [lia|]. apply fresh_app; [apply vids_shift|].
+  destruct (oparams nd) as [[i a]|]; [|constructor]. constructor; [lia|apply attrs_ids_shift].
+Qed.
+
+Theorem direct_convert_fresh : forall n0 gc nc g, fresh n0 (cgraph_ids (direct_convert n0 gc nc g)).
+Proof.
+  intros n0 gc nc g. unfold cgraph_ids, direct_convert. cbn [gid gnodes]. constructor; [lia|].
+  unfold opt_ids. apply fresh_flat_map. intros nd Hin. apply in_map_iff in Hin as [x [<- _]].
+  apply copy_node_fresh.
+Qed.
+
+(* hence: nothing that was live before the call (identity < n0) is reachable from the output *)
+Lemma fresh_disjoint : forall n0 old new, Forall (fun i => i < n0) old -> fresh n0 new ->
+  forall i, In i old -> In i new -> False.
+Proof.
+  intros n0 old new Ho Hn i H1 H2. eapply Forall_forall in Ho; eauto. eapply Forall_forall in Hn; eauto.
+  cbn in *. lia.
+Qed.
+
+(* DirectAdapter keeps uids, names, parameters, parents (content is a deep copy) *)
+Lemma copy_node_content : forall n0 c nd,
+  ouid (copy_node n0 c nd) = ouid nd /\ opar (copy_node n0 c nd) = opar nd /\
+  veqb (oname nd) (oname (copy_node n0 c nd)) = true /\
+  attrs_equiv (node_params nd) (node_params (copy_node n0 c nd)) /\
+  ocls (copy_node n0 c nd) = c.
+Proof.
+  intros n0 c nd. unfold copy_node, node_params. cbn [ouid opar oname oparams ocls].
+  repeat split; auto.
+  - apply veqb_shift_r, veqb_refl.
+  - destruct (oparams nd) as [[i a]|]; intros k; cbn.
+    + rewrite lookup_shift. destruct (lookup k a); cbn; auto. apply veqb_shift_r, veqb_refl.
+    + reflexivity.
+Qed.
+
+(* ==================================================================================== *)
+(* 11. adapt / restore dispatch and _transform                                           *)
+(* ==================================================================================== *)
+Section CallProofs.
+  Context {G M : Type}.
+  Variable cvA : G -> G.
+  Variable cvR : G -> option M -> G.
+  Notation val := (@val G M).
+  Notation adapt := (@adapt G M cvA).
+  Notation restore := (@restore G M cvR).
+  Notation adapt_total := (@adapt_total G M cvA).
+  Notation restore_total := (@restore_total G M cvR).
+
+  Lemma map_res_ok {X Y} (f : X -> res Y) (h : X -> Y) : forall l,
+    (forall x, In x l -> f x = Ok (h x)) -> map_res f l = Ok (map h l).
+  Proof.
+    induction l as [|a l IH]; intros H; cbn; auto.
+    rewrite (H a) by (left; reflexivity). cbn. rewrite IH; auto. intros x Hx. apply H. right. exact Hx.
+  Qed.
+
+  Lemma restore1_ok : forall k c g m, can_restore k c = true ->
+    restore1 cvR k (VGraph c g) m = Ok (conv_r cvR k c g m).
+  Proof. intros k c g m H. unfold restore1, conv_r. destruct k; cbn in *; try rewrite H; reflexivity. Qed.
+
+  Lemma adapt1_ok : forall k c g, can_adapt k c = true ->
+    adapt1 cvA k (VGraph c g : val) = Ok (conv_a cvA k c g).
+  Proof. intros k c g H. unfold adapt1, conv_a. destruct k; cbn in *; try rewrite H; reflexivity. Qed.
+
+  Theorem restore_total_ok : forall k v, restorable k v = true -> restore k v = Ok (restore_total k v).
+  Proof.
+    intros k v H. unfold Adapter.restore, Adapter.restore_total.
+    destruct v as [c g|c g m|l|l| |s]; cbn [is_opt_exact is_ind seq_items]; try reflexivity.
+    - destruct c; cbn [is_opt_exact]; try reflexivity. apply restore1_ok. destruct k; reflexivity.
+    - cbn [restore_ind]. apply restore1_ok. exact H.
+    - destruct l as [|h t]; [reflexivity|]. cbn [restorable] in H. destruct (is_ind h) eqn:Ei; cbn [orb].
+      + rewrite (map_res_ok (restore_ind cvR k) (restore_elem cvR k)); [reflexivity|].
+        intros x Hx. eapply forallb_forall in H; [|exact Hx]. apply andb_true_iff in H as [H1 H2].
+        destruct x; try discriminate H1. cbn. apply restore1_ok. exact H2.
+      + destruct (is_opt_inst k h) eqn:Eo; [|reflexivity].
+        rewrite (map_res_ok (fun x => restore1 cvR k x None) (restore_elem cvR k)); [reflexivity|].
+        intros x Hx. eapply forallb_forall in H; [|exact Hx]. apply andb_true_iff in H as [H1 H2].
+        destruct x; try discriminate H1. cbn. apply restore1_ok. exact H2.
+    - destruct l as [|h t]; [reflexivity|]. cbn [restorable] in H. destruct (is_ind h) eqn:Ei; cbn [orb].
+      + rewrite (map_res_ok (restore_ind cvR k) (restore_elem cvR k)); [reflexivity|].
+        intros x Hx. eapply forallb_forall in H; [|exact Hx]. apply andb_true_iff in H as [H1 H2].
+        destruct x; try discriminate H1. cbn. apply restore1_ok. exact H2.
+      + destruct (is_opt_inst k h) eqn:Eo; [|reflexivity].
+        rewrite (map_res_ok (fun x => restore1 cvR k x None) (restore_elem cvR k)); [reflexivity|].
+        intros x Hx. eapply forallb_forall in H; [|exact Hx]. apply andb_true_iff in H as [H1 H2].
+        destruct x; try discriminate H1. cbn. apply restore1_ok. exact H2.
+  Qed.
+
+  Lemma dom_exact_can_adapt : forall k c g, is_dom_exact k (VGraph c g : val) = true -> can_adapt k c = true.
+  Proof. intros [] [] g H; cbn in *; congruence. Qed.
+
+  Theorem adapt_total_ok : forall k v, adaptable k v = true -> adapt k v = Ok (adapt_total k v).
+  Proof.
+    intros k v H. unfold Adapter.adapt, Adapter.adapt_total.
+    destruct (is_dom_exact k v) eqn:Ed.
+    - destruct v as [c g|c g m|l|l| |s]; try (destruct k; discriminate Ed).
+      cbn [adapt_elem]. apply adapt1_ok. eapply dom_exact_can_adapt. exact Ed.
+    - destruct v as [c g|c g m|l|l| |s]; cbn [seq_items]; try reflexivity.
+      + destruct l as [|h t]; [reflexivity|]. cbn [adaptable] in H. destruct (is_dom_exact k h); [|reflexivity].
+        rewrite (map_res_ok (adapt1 cvA k) (adapt_elem cvA k)); [reflexivity|].
+        intros x Hx. eapply forallb_forall in H; [|exact Hx]. destruct x; try discriminate H.
+        cbn [adapt_elem]. apply adapt1_ok. exact H.
+      + destruct l as [|h t]; [reflexivity|]. cbn [adaptable] in H. destruct (is_dom_exact k h); [|reflexivity].
+        rewrite (map_res_ok (adapt1 cvA k) (adapt_elem cvA k)); [reflexivity|].
+        intros x Hx. eapply forallb_forall in H; [|exact Hx]. destruct x; try discriminate H.
+        cbn [adapt_elem]. apply adapt1_ok. exact H.
+  Qed.
+
+  (* _transform: arguments converted one by one (positional and keyword), result converted *)
+  Theorem transform_spec : forall (fa fr : val -> res val) (ta : val -> val) (fn : pyfun) args kw,
+    (forall a, In a args -> fa a = Ok (ta a)) ->
+    (forall kv, In kv kw -> fa (snd kv) = Ok (ta (snd kv))) ->
+    transform fa fr fn args kw =
+    bind (fn (map ta args) (map (fun kv => (fst kv, ta (snd kv))) kw)) (transform_result fr).
+  Proof.
+    intros fa fr ta fn args kw Ha Hk. unfold transform, map_kw.
+    rewrite (map_res_ok (fun kv => bind (fa (snd kv)) (fun v => Ok (fst kv, v))) (fun kv => (fst kv, ta (snd kv)))).
+    - cbn [bind]. rewrite (map_res_ok fa ta _ Ha). reflexivity.
+    - intros kv Hin. rewrite (Hk kv Hin). reflexivity.
+  Qed.
+
+  Theorem transform_result_spec : forall (fr : val -> res val) (tr : val -> val) (p : val -> bool) r,
+    (forall v, p v = true -> fr v = Ok (tr v)) -> result_ok p r = true ->
+    transform_result fr r = Ok (result_total tr r).
+  Proof.
+    intros fr tr p r H Hr. destruct r as [c g|c g m|l|l| |s]; cbn [transform_result result_total result_ok] in *;
+      try (apply H; exact Hr); try reflexivity.
+    rewrite (map_res_ok fr tr); [reflexivity|]. intros x Hx. apply H. eapply forallb_forall in Hr; eauto.
+  Qed.
+
+  (* adapt_func on a function that is not native *)
+  Theorem adapt_wrap_spec : forall k (fn : pyfun) args kw r,
+    forallb (restorable k) args = true ->
+    forallb (fun kv => restorable k (snd kv)) kw = true ->
+    fn (map (restore_total k) args) (map (fun kv => (fst kv, restore_total k (snd kv))) kw) = Ok r ->
+    result_ok (adaptable k) r = true ->
+    adapt_wrap cvA cvR k fn args kw = Ok (result_total (adapt_total k) r).
+  Proof.
+    intros k fn args kw r Ha Hk Hf Hr. unfold adapt_wrap.
+    rewrite (transform_spec (restore k) (adapt k) (restore_total k)).
+    - rewrite Hf. cbn [bind]. eapply transform_result_spec; [|exact Hr]. apply adapt_total_ok.
+    - intros a Hin. apply restore_total_ok. eapply forallb_forall in Ha; eauto.
+    - intros kv Hin. apply restore_total_ok. eapply forallb_forall in Hk; eauto.
+  Qed.
+
+  Theorem restore_func_spec : forall k (fn : pyfun) args kw r,
+    forallb (adaptable k) args = true ->
+    forallb (fun kv => adaptable k (snd kv)) kw = true ->
+    fn (map (adapt_total k) args) (map (fun kv => (fst kv, adapt_total k (snd kv))) kw) = Ok r ->
+    result_ok (restorable k) r = true ->
+    restore_func cvA cvR k fn args kw = Ok (result_total (restore_total k) r).
+  Proof.
+    intros k fn args kw r Ha Hk Hf Hr. unfold restore_func.
+    rewrite (transform_spec (adapt k) (restore k) (adapt_total k)).
+    - rewrite Hf. cbn [bind]. eapply transform_result_spec; [|exact Hr]. apply restore_total_ok.
+    - intros a Hin. apply adapt_total_ok. eapply forallb_forall in Ha; eauto.
+    - intros kv Hin. apply adapt_total_ok. eapply forallb_forall in Hk; eauto.
+  Qed.
+
+  (* an exception of the wrapped function propagates *)
+  Lemma adapt_wrap_raise : forall k (fn : pyfun) args kw,
+    forallb (restorable k) args = true ->
+    forallb (fun kv => restorable k (snd kv)) kw = true ->
+    fn (map (restore_total k) args) (map (fun kv => (fst kv, restore_total k (snd kv))) kw) = Raise ->
+    adapt_wrap cvA cvR k fn args kw = Raise.
+  Proof.
+    intros k fn args kw Ha Hk Hf. unfold adapt_wrap.
+    rewrite (transform_spec (restore k) (adapt k) (restore_total k)).
+    - rewrite Hf. reflexivity.
+    - intros a Hin. apply restore_total_ok. eapply forallb_forall in Ha; eauto.
+    - intros kv Hin. apply restore_total_ok. eapply forallb_forall in Hk; eauto.
+  Qed.
+End CallProofs.
+
+(* ==================================================================================== *)
+(* 12. AdaptRegistry                                                                     *)
+(* ==================================================================================== *)
+Inductive wrapper := WPartial | WMethod.
+
+Fixpoint wrap (ws : list wrapper) (c : callable) : callable :=
+  match ws with
+  | [] => c
+  | WPartial :: r => CPartial (wrap r c)
+  | WMethod :: r => CMethod (wrap r c)
+  end.
+
+Lemma underlying_wrap : forall ws c, underlying (wrap ws c) = underlying c.
+Proof. induction ws as [|[] ws IH]; intros c; cbn; auto. Qed.
+
+Lemma callable_is_wrap : forall c, exists ws f, c = wrap ws (CFun f).
+Proof.
+  induction c as [f|c [ws [f ->]]|c [ws [f ->]]].
+  - exists [], f. reflexivity.
+  - exists (WPartial :: ws), f. reflexivity.
+  - exists (WMethod :: ws), f. reflexivity.
+Qed.
+
+Theorem native_as_is : forall fl c, is_native fl c = true -> adapt_func fl c = Same c.
+Proof. intros fl c H. unfold adapt_func. rewrite H. reflexivity. Qed.
+
+Theorem not_native_wrapped : forall fl c, is_native fl c = false -> adapt_func fl c = Wrapped c.
+Proof. intros fl c H. unfold adapt_func. rewrite H. reflexivity. Qed.
+
+Theorem registered_found_through_wrappers : forall fl ws ws' f,
+  is_native (register_native fl (wrap ws (CFun f))) (wrap ws' (CFun f)) = true.
+Proof.
+  intros. unfold is_native, register_native. rewrite !underlying_wrap. cbn. rewrite Nat.eqb_refl. reflexivity.
+Qed.
+
+Theorem register_same_underlying : forall fl c c', underlying c' = underlying c ->
+  is_native (register_native fl c) c' = true.
+Proof. intros fl c c' H. unfold is_native, register_native. rewrite H, Nat.eqb_refl. reflexivity. Qed.
+
+Theorem register_other : forall fl c c', underlying c' <> underlying c ->
+  is_native (register_native fl c) c' = is_native fl c'.
+Proof.
+  intros fl c c' H. unfold is_native, register_native. apply Nat.eqb_neq in H. rewrite H. reflexivity.
+Qed.
+
+Theorem unregister_same_underlying : forall fl c c', underlying c' = underlying c ->
+  is_native (unregister_native fl c) c' = false.
+Proof. intros fl c c' H. unfold is_native, unregister_native. rewrite H, Nat.eqb_refl. reflexivity. Qed.
+
+Theorem unregister_other : forall fl c c', underlying c' <> underlying c ->
+  is_native (unregister_native fl c) c' = is_native fl c'.
+Proof.
+  intros fl c c' H. unfold is_native, unregister_native. apply Nat.eqb_neq in H. rewrite H. reflexivity.
+Qed.
+
+(* the flags after a history of register / unregister calls are decided by the last call that
+   concerned the underlying function *)
+Lemma run_ops_last : forall ops fl cur f,
+  fl f = match cur with Some true => true | _ => false end ->
+  fold_left (fun fl op => match op with RegOp c => register_native fl c | UnregOp c => unregister_native fl c end)
+            ops fl f
+  = match last_op_on f ops cur with Some true => true | _ => false end.
+Proof.
+  induction ops as [|[c|c] ops IH]; intros fl cur f H; cbn [fold_left last_op_on]; [exact H| |].
+  - apply IH. unfold register_native. rewrite (Nat.eqb_sym f). destruct (Nat.eqb (underlying c) f); [reflexivity|exact H].
+  - apply IH. unfold unregister_native. rewrite (Nat.eqb_sym f). destruct (Nat.eqb (underlying c) f); [reflexivity|exact H].
+Qed.
+
+Theorem registry_history : forall ops c,
+  is_native (run_ops ops) c = match last_op_on (underlying c) ops None with Some true => true | _ => false end.
+Proof. intros ops c. unfold is_native, run_ops. apply run_ops_last. reflexivity. Qed.
+
+(* the model satisfies the oracle evaluated on observed behaviour *)
+Theorem model_holds_registry : forall ops c,
+  holds_registry ops c (is_native (run_ops ops) c) (adapted_is_same (adapt_func (run_ops ops) c)) = true.
+Proof.
+  intros ops c. unfold holds_registry, adapt_func. rewrite (registry_history ops c).
+  destruct (last_op_on (underlying c) ops None) as [[]|]; reflexivity.
+Qed.
+
+(* calling what adapt_func returned *)
+Theorem native_called_directly : forall {G M} (cvA : G -> G) (cvR : G -> option M -> G) k den fl c,
+  is_native fl c = true -> call_adapted cvA cvR k den (adapt_func fl c) = den c.
+Proof. intros. rewrite native_as_is by assumption. reflexivity. Qed.
+
+Theorem domain_called_through_wrapper : forall {G M} (cvA : G -> G) (cvR : G -> option M -> G) k den fl c,
+  is_native fl c = false -> call_adapted cvA cvR k den (adapt_func fl c) = adapt_wrap cvA cvR k (den c).
+Proof. intros. rewrite not_native_wrapped by assumption. reflexivity. Qed.
+
+(* ==================================================================================== *)
+(* 13. DirectAdapter content, refutations outside the guards                             *)
+(* ==================================================================================== *)
+Definition copy_of (cls : nat) (nd nd' : onode) : Prop :=
+  ouid nd' = ouid nd /\ opar nd' = opar nd /\ veqb (oname nd) (oname nd') = true /\
+  attrs_equiv (node_params nd) (node_params nd') /\ ocls nd' = cls.
+
+Theorem direct_convert_content : forall n0 gc nc g,
+  gcls (direct_convert n0 gc nc g) = gc /\
+  Forall2 (copy_of nc) (gnodes g) (gnodes (direct_convert n0 gc nc g)).
+Proof.
+  intros n0 gc nc g. split; [reflexivity|]. unfold direct_convert. cbn [gnodes].
+  induction (gnodes g) as [|nd l IH]; cbn; constructor; [|exact IH].
+  destruct (copy_node_content n0 nc nd) as [H1 [H2 [H3 [H4 H5]]]]. repeat split; assumption.
+Qed.
+
+Lemma veqb_trans_shift : forall v n m, veqb v (shift n (shift m v)) = true.
+Proof. exact veqb_shift2. Qed.
+
+(* out (adapt) and back (restore): same uids, parents, names, parameters, original classes *)
+Theorem direct_roundtrip : forall n0 n1 g,
+  let r := direct_restore n1 (gcls g) 7 (direct_adapt n0 g) in
+  gcls r = gcls g /\ List.length (gnodes r) = List.length (gnodes g) /\
+  forall i nd, nth_error (gnodes g) i = Some nd ->
+    exists nd', nth_error (gnodes r) i = Some nd' /\
+      ouid nd' = ouid nd /\ opar nd' = opar nd /\ veqb (oname nd) (oname nd') = true /\
+      attrs_equiv (node_params nd) (node_params nd').
+Proof.
+  intros n0 n1 g. cbn zeta. unfold direct_restore, direct_adapt, direct_convert. cbn [gcls gnodes].
+  split; [reflexivity|]. split; [rewrite !map_length; reflexivity|].
+  intros i nd Hn. exists (copy_node n1 7 (copy_node n0 0 nd)). split.
+  - apply map_nth_error, map_nth_error. exact Hn.
+  - unfold copy_node, node_params. cbn [ouid opar oname oparams]. repeat split.
+    + apply veqb_shift2.
+    + destruct (oparams nd) as [[j a]|]; intros k; cbn; [|reflexivity].
+      rewrite !lookup_shift. apply oveqb_shift2.
+Qed.
+
+(* the guard of nx_roundtrip is needed: a node whose 'name' is the empty string comes back
+   without that attribute, so no bijection can relate equal attributes *)
+Definition G_empty_name : nxg nxattrs :=
+  mkG [(KStr "a", (0, [(name_key, PStr "")]))] [].
+
+Theorem nx_roundtrip_empty_name_refuted :
+  nx_wf G_empty_name /\
+  forall n0 u0 n1 f, ~ nx_iso nx_attrs_equal f G_empty_name (nx_restore n1 (nx_adapt n0 u0 G_empty_name)).
+Proof.
+  split.
+  - split; [|split]; cbn; try (repeat constructor; cbn; tauto); try (intros u v []).
+  - intros n0 u0 n1 f [_ [_ [H _]]].
+    destruct (H (KStr "a") (0, [(name_key, PStr "")]) (or_introl eq_refl)) as [b [Hin Heq]].
+    cbn in Hin. rewrite !Nat.eqb_refl in Hin. cbn in Hin. rewrite ?Nat.eqb_refl in Hin. cbn in Hin.
+    destruct Hin as [Hin|[]]. injection Hin as _ <-.
+    specialize (Heq name_key). cbn in Heq. discriminate Heq.
+Qed.
+
+(* likewise a non-string name comes back as its str() *)
+Definition G_int_name : nxg nxattrs := mkG [(KStr "a", (0, [(name_key, PInt 5)]))] [].
+
+Theorem nx_roundtrip_int_name_refuted :
+  forall n0 u0 n1 f, ~ nx_iso nx_attrs_equal f G_int_name (nx_restore n1 (nx_adapt n0 u0 G_int_name)).
+Proof.
+  intros n0 u0 n1 f [_ [_ [H _]]].
+  destruct (H (KStr "a") (0, [(name_key, PInt 5)]) (or_introl eq_refl)) as [b [Hin Heq]].
+  cbn in Hin. rewrite !Nat.eqb_refl in Hin. cbn in Hin. rewrite ?Nat.eqb_refl in Hin. cbn in Hin.
+  destruct Hin as [Hin|[]]. injection Hin as _ <-.
+  specialize (Heq name_key). cbn in Heq. discriminate Heq.
+Qed.
+
+(* the guard of opt_roundtrip is needed: a parameter called 'name' is overwritten by the node
+   name and then moved out of the parameters *)
+Definition g_param_named_name : optg :=
+  [mkN 0 0 0 (PStr "a") (Some (1, [(name_key, PStr "b"); ("k"%string, PInt 1)])) 2 []].
+
+Theorem opt_roundtrip_param_name_refuted :
+  opt_wf g_param_named_name /\
+  forall n0 u0 n1 f, ~ opt_iso same_name_params f g_param_named_name
+                        (nx_adapt n0 u0 (nx_restore n1 g_param_named_name)).
+Proof.
+  split.
+  - split; [repeat constructor; cbn; tauto|]. intros nd [<-|[]]. split; [constructor|intros x []].
+  - intros n0 u0 n1 f [_ [_ [H _]]].
+    destruct (H _ (or_introl eq_refl)) as [nd' [Hin [_ [_ [_ Hp]]]]].
+    cbn in Hin. rewrite !Nat.eqb_refl in Hin. cbn in Hin. rewrite ?Nat.eqb_refl in Hin. cbn in Hin.
+    destruct Hin as [<-|[]]. specialize (Hp name_key). cbn in Hp. discriminate Hp.
+Qed.
